@@ -47,6 +47,11 @@ def scenarios():
                "pre": [], "inv": {"target": "//:top", "jobs": 2, "strategy": "blocked-fifo", "seed": 11, "script": {"//:p0": {"launch_fail": "exec"}}}})
     sc.append({"name": "launch-fail-chdir-seq", "tasks": [T("q0"), T("q1", "run_experiment"), T("q2", "run_experiment", deps=["q1"]), T("top", "group", ["q0", "q2"])],
                "pre": [], "inv": {"target": "//:top", "jobs": None, "strategy": "blocked-fifo", "seed": 12, "script": {"//:q0": {"launch_fail": "chdir"}}}})
+    sd = [T("s%d" % i, "run_experiment", par=(i != 3)) for i in range(5)]
+    sc.append({"name": "experiments-dying-by-signal-seq", "tasks": sd + [gen.mk_task("", "top", "group", [t["id"] for t in sd])],
+               "pre": [], "inv": {"target": "//:top", "jobs": None, "strategy": "blocked-fifo", "seed": 15, "script": {"//:s0": {"signal": 9}, "//:s2": {"signal": 15}, "//:s3": {"exit": 256 + 0}}}})
+    sc.append({"name": "experiments-dying-by-signal-j2", "tasks": sd + [gen.mk_task("", "top", "group", [t["id"] for t in sd])],
+               "pre": [], "inv": {"target": "//:top", "jobs": 2, "strategy": "blocked-random", "seed": 16, "script": {"//:s1": {"signal": 11}, "//:s2": {"signal": 2}}}})
     sc.append({"name": "stdout-gone-j3", "tasks": fan + [gen.mk_task("", "top", "group", [t["id"] for t in fan])], "break_stdout": True,
                "pre": [], "inv": {"target": "//:top", "jobs": 3, "strategy": "blocked-random", "seed": 13}})
     sc.append({"name": "par-fan-j3-exits-while-aborting", "tasks": fan + [gen.mk_task("", "top", "combine", [t["id"] for t in fan])], "exits_after": 0.6,
